@@ -18,7 +18,6 @@ R("09b85350de", "config", "Prefix4::new asserts prefixlen <= 32; every caller pa
 R("e89c8b29b6", "internal", "the arm is entered only when network() has the ::ffff:0:0/96 pattern, and network() masks the address with the "
   "prefix length, so the pattern can only survive when prefixlen >= 96", requires=("C08.R6", "S2"))
 R("b7c00e393d", "config", "network + offset with offset < 2^(32-prefixlen): stays inside the configured subnet", props=C05)
-R("7f379f249b", "config", "Ipv4Subnet::netmask shifts by the prefix length of a configured or interface subnet", props=C05)
 R("1a5ec36410", "config", "dest[0] of a forward route: the server list comes from the configuration", props=C05)
 R("846664c7f6", "config", "RA option length octet: length of a configured option value", props=C05)
 R("1ff92d722b", "internal", "RA DNSSL length octet: names are appended only while the list stays within 254 * 8 octets, so after padding len / 8 <= 254")
@@ -127,7 +126,6 @@ R("08eac32c12", "internal", "offset + count: offset <= 0x3fff or <= len(buffer),
 R("90644cccd8", "internal", "len - offset in the error message: get_bytes runs only after a successful get_u8, so offset <= len (a pointer "
   "jump past the end fails in get_u8 first)")
 R("3092b59d64", "internal", "name length accumulator: checked against 254 after every addition of at most 64", requires=("C14.R5",))
-R("ceb4013383", "internal", "offset + 1 after peek_u8 succeeded, i.e. offset < len(buffer)")
 R("8a54f9a3cd", "unreach", "the record was selected by rrtype == OPT and the decoder builds RData::Opt for exactly that type", requires=("C14.R1",))
 R("2beddd22c1", "loop", "dns_routes[route] with route from 0..dns_routes.len() under the same read guard")
 R("098c27b463", "loop", "dns_routes[best_route]: an index taken from the same range under the same read guard")
@@ -135,8 +133,6 @@ R("d0f8157fd5", "internal", "best_suffix is set together with best_route")
 R("53a3f2df90", "internal", "tlvs.len() - 1 immediately after a push")
 R("061ac92a02", "internal", "value[..p + 1] with p a position inside value (rposition), or value[..0]")
 R("94e434c019", "internal", "p + 1 with p < len(value)")
-R("8497e0f07b", "internal", "concat of value[2..] (12 octets: the length was checked to be 14) and 4 zero octets is 16 octets")
-R("2c5c0e5770", "internal", "chunks_exact(16) yields slices of exactly 16 octets")
 R("75eb8593d2", "internal", "every option arm pads what it writes to a multiple of 8 octets")
 R("e81b6d25f8", "internal", "serialise() is only called with the advertisement erbium built itself; the other message kinds are never sent", count=2)
 for h in ("ed8eb25f1a", "8514a972a6"):
